@@ -399,9 +399,11 @@ class Check:
         self.known = [k for k in load_known() if k.get("property") == pid and k.get("status") == "known"]
         os.makedirs(REPLAY, exist_ok=True)
         os.makedirs(WORK, exist_ok=True)
+        prev = os.path.join(WORK, "prev_replay")     # the previous run's replays stay readable (not evidence)
+        os.makedirs(prev, exist_ok=True)
         for f in os.listdir(REPLAY):
             if f.startswith(pid + "-"):
-                os.remove(os.path.join(REPLAY, f))
+                os.replace(os.path.join(REPLAY, f), os.path.join(prev, f))
 
     # -- obligations (proof side)
     def obligation(self, name, ok, detail=""):
